@@ -1,4 +1,57 @@
-(* C15 — nilness facts are sound with respect to real executions. *)
+(* C15 — nilness facts are sound with respect to real executions; SA4023 consequence.
+   ONLY statements closed by [exact]; each followed by Print Assumptions. *)
 From Coq Require Import List Arith Bool.
 Import ListNotations.
-Require Import Verif.Model.C13 Verif.Model.C13_Nilness Verif.Model.C15 Verif.Proofs.C15.
+Require Import Verif.Model.C13 Verif.Model.C13_Nilness Verif.Model.C15 Verif.Gen.C15_SA4023 Verif.Model.C15_Check.
+Require Import Verif.Proofs.C13 Verif.Proofs.C15.
+
+(* the concretisation of a merge contains the concretisations of both arguments (table regenerated) *)
+Theorem merge_sound : forall (a b : vn) (sh : shape),
+  gamma a sh = true \/ gamma b sh = true -> gamma (merge a b) sh = true.
+Proof. exact Verif.Proofs.C15.merge_sound. Qed.
+Print Assumptions merge_sound.
+
+(* every instruction kind: if the abstract state covers the environment and the instruction executes (does not
+   panic / block), the abstract post-state covers the new environment, including refined operands *)
+Theorem transfer_sound : forall (f : func) (tb : option bool) (s : st) (r : env) (i : instr) (r' : env),
+  covers f s r -> env_wf f r -> exec f tb r i r' ->
+  covers f (process_instr f tb s i) r' /\ env_wf f r'.
+Proof. exact Verif.Proofs.C15.transfer_sound. Qed.
+Print Assumptions transfer_sound.
+
+(* any solution of the flow equations covers every environment reachable along any CFG path from the entry *)
+Theorem mfp_covers_paths : forall (f : func), wf_func_b f = true ->
+  forall sol : @state st,
+  is_fixpoint_b (fsuccs f) (ntransfer f) (nentry f) (get_in sol) (get_out sol) = true ->
+  forall r0 b r, init_env_ok f r0 -> reach f r0 b r -> b < length (f_blocks f) ->
+  covers f (get_in sol b) r /\ env_wf f r.
+Proof. exact Verif.Proofs.C15.mfp_covers_paths. Qed.
+Print Assumptions mfp_covers_paths.
+
+(* for every function of the mini-IR, every schedule of the solver, every initial environment, every execution that
+   returns normally and every pointer-like result k: the shape of the returned value (outer and inner) lies in the
+   concretisation of the exported fact. Callee facts are premises of the execution relation (assume-guarantee). *)
+Theorem nilness_sound : forall (f : func) (pick : list nat -> nat) (fuel : nat) (facts : list vn)
+                               (r0 : env) (k : nat) (sh : shape),
+  wf_func_b f = true ->
+  analyse f pick fuel = Some facts ->
+  init_env_ok f r0 -> returns f r0 k sh -> k < length (f_results f) ->
+  fst (nth k (f_results f) (false, false)) = true ->
+  gamma (nth k facts MM) sh = true.
+Proof. exact nilness_sound_run. Qed.
+Print Assumptions nilness_sound.
+
+(* SA4023 reads Result.Nilness(...).Outer == <regenerated constant>: a flagged result is never a nil interface *)
+Theorem sa4023_sound : forall (f : func) (pick : list nat -> nat) (fuel : nat) (facts : list vn)
+                              (r0 : env) (k : nat) (sh : shape),
+  wf_func_b f = true ->
+  analyse f pick fuel = Some facts ->
+  init_env_ok f r0 -> returns f r0 k sh -> k < length (f_results f) ->
+  fst (nth k (f_results f) (false, false)) = true ->
+  sa4023_flags (nth k facts MM) = true ->
+  outer_nil sh = false.
+Proof.
+  exact (fun f pick fuel facts r0 k sh WF A I R Hk Pk Fl =>
+    sa4023_sound_flags _ sh Fl (nilness_sound_run f pick fuel facts r0 k sh WF A I R Hk Pk)).
+Qed.
+Print Assumptions sa4023_sound.
